@@ -158,6 +158,8 @@ pub fn property(_ctx: &Ctx) -> Property {
         subs: vec![
             sub::<Program, _, _>("storage", 6000, 150000, |c| program_strategy(STORAGE, if c.thorough() { 100 } else { 40 }, 4, 4), check),
             sub::<Program, _, _>("conflict", 3000, 80000, |c| program_strategy(CONFLICT, if c.thorough() { 100 } else { 40 }, 4, 4), check),
+            sub::<Program, _, _>("counters", 2000, 50000, |c| program_strategy(COUNTER, if c.thorough() { 100 } else { 40 }, 4, 4), check),
+            sub::<Program, _, _>("seq-conflict", 2000, 50000, |c| program_strategy(SEQ_CONFLICT, if c.thorough() { 100 } else { 40 }, 4, 4), check),
         ],
     }
 }
